@@ -163,9 +163,17 @@ def correspondence(ctx):
         dx = dxs[(m + n) % 3]
         a = _marked((m, n))
         ctx.case('slices', {'shape': [m, n], 'dx': dx}, nontrivial=m > 1 and n > 1, tag=f'par{m % 2}{n % 2}')
-        s = rd.RichData(a, dx, 1.0).slices(twosided=True)
-        (ux, sx), (uy, sy) = s.x, s.y
-        if not (np.array_equal(sx, a[m // 2, :]) and np.array_equal(sy, a[:, n // 2]) and ux[n // 2] == 0 and uy[m // 2] == 0):
+        try:
+            s = rd.RichData(a, dx, 1.0).slices(twosided=True)
+            (ux, sx), (uy, sy) = s.x, s.y
+            ok = np.array_equal(sx, a[m // 2, :]) and np.array_equal(sy, a[:, n // 2]) and ux[n // 2] == 0 and uy[m // 2] == 0
+            s1 = rd.RichData(a, dx, 1.0).slices(twosided=False)
+            (vx, tx), (vy, ty) = s1.x, s1.y
+            ok = ok and np.array_equal(tx, a[m // 2, n // 2:]) and np.array_equal(ty, a[m // 2:, n // 2]) \
+                and vx[0] == 0 and vy[0] == 0
+        except Exception as ex:
+            ok = False
+        if not ok:
             ctx.pred_fail('slices', {'shape': [m, n], 'dx': dx}, 'slices do not pass through the origin sample')
         if m * n <= ctx.scale(72, 196):
             for (p, q) in itertools.product(range(m), range(n)):
@@ -181,6 +189,50 @@ def correspondence(ctx):
                 ey, ex_ = (p - m // 2) * dx, (q - n // 2) * dx
                 if abs(cy - ey) > 1e-9 or abs(cx - ex_) > 1e-9:
                     ctx.pred_fail('centroid', case, f'point source {p - m // 2, q - n // 2} samples from the origin reported at {cy / dx, cx / dx} samples')
+
+    # ---------------- FFT-route propagation keeps the origin on n//2 (frequency axis of focus/unfocus)
+    for (m, n) in itertools.product(range(1, ctx.scale(12, 24)), repeat=2):
+        case = {'shape': [m, n]}
+        ctx.case('focus_origin', case, nontrivial=m > 1 and n > 1, tag=f'par{m % 2}{n % 2}')
+        try:
+            flat = np.ones((m, n), dtype=complex)
+            f = pr.focus(flat, 1)
+            pk = np.unravel_index(np.argmax(abs(f)), f.shape)
+            d = np.zeros((m, n), dtype=complex)
+            d[m // 2, n // 2] = 1
+            g = pr.focus(d, 1)
+            u = pr.unfocus(d, 1)
+            ok = tuple(int(v) for v in pk) == (m // 2, n // 2) and abs(f[m // 2, n // 2]) > 0.99 * np.sqrt(m * n) \
+                and np.allclose(g, g[0, 0], atol=1e-12) and abs(g[0, 0].imag) < 1e-12 \
+                and np.allclose(u, u[0, 0], atol=1e-12) and abs(u[0, 0].imag) < 1e-12
+        except Exception as ex:
+            ok = False
+        if not ok:
+            ctx.pred_fail('focus_origin', case, 'flat field does not focus onto the origin sample / origin point source is not flat in the far field')
+
+    # ---------------- history: grids stay correct after callers edited earlier results in place (no shared arrays)
+    from prysm.conf import config
+    for n in range(1, ctx.scale(40, 130)):
+        case = {'n': n}
+        ctx.case('grid_fresh', case, nontrivial=n > 1)
+        try:
+            for dt in (None, config.precision):
+                v = ft.fftrange(n, dtype=dt)
+                v -= 3                      # what the matrix-DFT / chirp-Z basis builders do for a shift
+            ft.mdft.dft2(np.ones((n, (n % 4) + 1)), 1.0, (n, (n % 4) + 1), shift=(1.5, 2.0))
+            ft.czt.czt2(np.ones((n, (n % 4) + 1)), 1.0, (n, (n % 4) + 1), shift=(1.5, 2.0))
+            x, y = co.make_xy_grid((n, n), dx=0.5)
+            x -= 1.0
+            x2, y2 = co.make_xy_grid((n, n), dx=0.5)
+            u = ft.forward_ft_unit(0.5, n)
+            u += 1.0
+            u2 = ft.forward_ft_unit(0.5, n)
+            ok = all(ft.fftrange(n, dtype=dt)[n // 2] == 0 for dt in (None, config.precision)) \
+                and x2[0, n // 2] == 0 and y2[n // 2, 0] == 0 and u2[n // 2] == 0
+        except Exception as ex:
+            ok = False
+        if not ok:
+            ctx.pred_fail('grid_fresh', case, 'a grid lost its zero at n//2 after an earlier result was modified in place / after a shifted transform')
 
     # ---------------- default padded length ceil(n*Q) and Wavefront delegation
     for n in lens:
@@ -248,6 +300,21 @@ def search(ctx, hints):
         if x[0, (n + 1) // 2] != 0 or y[n // 2, 0] != 0:
             return {'item': 'make_xy_grid', 'input': {'shape': [n, n + 1], 'dx': 0.5}, 'detail': 'no zero at n//2'}
     for (m, n) in itertools.product(range(1, 10), repeat=2):
+        a = _marked((m, n))
+        try:
+            s = rd.RichData(a, 1.0, 1.0).slices(twosided=True)
+            ok = np.array_equal(s.x[1], a[m // 2, :]) and np.array_equal(s.y[1], a[:, n // 2])
+        except Exception:
+            ok = False
+        if not ok:
+            return {'item': 'slices', 'input': {'shape': [m, n], 'dx': 1.0}, 'detail': 'slices miss the origin sample'}
+        try:
+            f = pr.focus(np.ones((m, n), dtype=complex), 1)
+            ok = tuple(int(v) for v in np.unravel_index(np.argmax(abs(f)), f.shape)) == (m // 2, n // 2)
+        except Exception:
+            ok = False
+        if not ok:
+            return {'item': 'focus_origin', 'input': {'shape': [m, n]}, 'detail': 'flat field does not focus onto the origin sample'}
         d = np.zeros((m, n))
         d[m // 2, n // 2] = 1
         cy, cx = psf.centroid(d, dx=1.0, unit='spatial')
@@ -311,6 +378,24 @@ def replay(inp):
         a = _marked((m, n))
         s = rd.RichData(a, c['dx'], 1.0).slices(twosided=True)
         return not (np.array_equal(s.x[1], a[m // 2, :]) and np.array_equal(s.y[1], a[:, n // 2]))
+    if item == 'focus_origin':
+        m, n = c['shape']
+        f = pr.focus(np.ones((m, n), dtype=complex), 1)
+        pk = tuple(int(v) for v in np.unravel_index(np.argmax(abs(f)), f.shape))
+        d = np.zeros((m, n), dtype=complex)
+        d[m // 2, n // 2] = 1
+        g = pr.focus(d, 1)
+        print(f'peak of focus(flat) at {pk}, origin sample is {(m // 2, n // 2)}; far field of origin point source flat: {np.allclose(g, g[0, 0])}')
+        return pk != (m // 2, n // 2) or not np.allclose(g, g[0, 0], atol=1e-12)
+    if item == 'grid_fresh':
+        n = c['n']
+        v = ft.fftrange(n)
+        v -= 3
+        ft.mdft.dft2(np.ones((n, 2)), 1.0, (n, 2), shift=(1.5, 2.0))
+        r = ft.fftrange(n)
+        x, y = co.make_xy_grid((n, n), dx=0.5)
+        print('fftrange after in-place edit of an earlier result:', r)
+        return not (r[n // 2] == 0 and x[0, n // 2] == 0 and y[n // 2, 0] == 0)
     print('no replay routine for item', item)
     return False
 
